@@ -81,3 +81,39 @@ Definition run_case4 (l : list Z) : list (list Z) :=
   | k :: t => if (10 <=? k) && (k <=? 29) then run_asm k t else run_case3 l
   | [] => [[0]]
   end.
+
+(* ---------- kind 13: the gmars command ----------
+   [use88; s; p; c; l; F; r; preset; nfiles; (len; bytes...)*nfiles] -> [90; exit; stdout...] *)
+From GM Require Import Cli.
+Open Scope Z_scope.
+Definition rd_flags_m (l : list Z) : option (flags * list Z) :=
+  match l with
+  | u88 :: s :: p :: c :: ln :: F :: r :: pre :: t => Some (mkFl (u88 =? 1) s p c ln F r (Z.to_N pre), t)
+  | _ => None
+  end.
+Definition rd_blob (l : list Z) : option (text * list Z) :=
+  match l with
+  | n :: t => let k := Z.to_nat n in Some (to_text (firstn k t), skipn k t)
+  | [] => None
+  end.
+Definition run_cli (l : list Z) : list (list Z) :=
+  match rd_flags_m l with
+  | Some (f, nf :: t) =>
+    match rd_blob t with
+    | Some (t1, rest) =>
+      let t2 := if nf =? 2 then match rd_blob rest with Some (x, _) => Some x | None => None end else None in
+      if (fl_F f =? 0) && (nf =? 2) then [[90; 5]]      (* random placement: outside the model *)
+      else match cli_main f t1 t2 (fixed_positions f) with
+           | CliOut e out => [[90; e] ++ of_text out]
+           | CliHang => [[99]]
+           end
+    | None => [[0]]
+    end
+  | _ => [[0]]
+  end.
+
+Definition run_case5 (l : list Z) : list (list Z) :=
+  match l with
+  | 13 :: t => run_cli t
+  | _ => run_case4 l
+  end.
